@@ -245,18 +245,40 @@ def _astype(self, dtype, copy=True):
     return d
 
 
-def _flatten(self):
-    return self.copy().ravel()
+def _flatten(self, order='C'):
+    r = self.ravel(order)
+    return r.copy()
 
 
-def _ma_reshape(self, *shape):
+def _ma_relayout(self, fn):
+    """reshape / ravel of a masked array: data and mask each become a view or a copy as numpy would decide"""
+    d = fn(ndarray(self.buf, self.idx, self.kind))
+    m = None if self._mask is None else fn(self._mask)
+    return MaskedArray(d, m, self._fill)
+
+
+def _ma_reshape(self, *shape, **kw):
     if len(shape) == 1 and isinstance(shape[0], (list, tuple)):
         shape = tuple(shape[0])
-    return self._view(self.idx.reshape(shape), None if self._mask is None else self._mask.idx.reshape(shape))
+    return _ma_relayout(self, lambda a: ndarray.reshape(a, shape, **kw))
 
 
-def _ma_ravel(self):
-    return self._view(self.idx.ravel(), None if self._mask is None else self._mask.idx.ravel())
+def _ma_ravel(self, order='C'):
+    return _ma_relayout(self, lambda a: ndarray.ravel(a, order))
+
+
+def _like(arr, tmpl):
+    """give `arr` (freshly made, C-ordered) the memory layout of tmpl, as numpy's *_like functions do (order='K')"""
+    t = tmpl.idx
+    if t.ndim < 2 or t.flags['C_CONTIGUOUS'] or not t.flags['F_CONTIGUOUS'] or t.shape != arr.idx.shape:
+        return arr
+    n = t.size
+    new_idx = _np.arange(n).reshape(t.shape[::-1]).T            # column-major positions
+    cells = arr.cells()
+    buf = [None] * n
+    for p_, c in zip(new_idx.ravel().tolist(), cells):
+        buf[p_] = c
+    return ndarray(buf, new_idx, arr.kind)
 
 
 def _squeeze(self):
@@ -374,19 +396,27 @@ def np_ones(shape, dtype=None):
 
 
 def np_zeros_like(a, dtype=None):
-    return np_zeros(a.shape, dtype or a.kind)
+    return _like(np_zeros(a.shape, dtype or a.kind), a)
 
 
 def np_ones_like(a, dtype=None):
-    return np_ones(a.shape, dtype or a.kind)
+    return _like(np_ones(a.shape, dtype or a.kind), a)
 
 
 def np_full_like(a, v, dtype=None):
-    return S.full(a.shape, v, dtype=dtype or a.kind)
+    return _like(S.full(a.shape, v, dtype=dtype or a.kind), a)
 
 
 def np_empty_like(a, dtype=None):
-    return S.empty(a.shape, dtype or a.kind)
+    return _like(S.empty(a.shape, dtype or a.kind), a)
+
+
+def np_flatnonzero(a):
+    """indices (in C order) of the non-zero cells: one fork per cell"""
+    d = a.filled(0) if isinstance(a, MaskedArray) else a
+    cells = d.ravel().cells()
+    hits = [i for i, c in enumerate(cells) if symx.CTX.decide(c if d.kind == 'b' else c != 0)]
+    return _np.array(hits, dtype=int)
 
 
 def np_concatenate(arrs, axis=0):
@@ -981,7 +1011,7 @@ def apply():
     M.clip = np_clip
     M.zeros, M.ones, M.masked_all = ma_zeros, ma_ones, ma_masked_all
     M.empty_like = lambda a, dtype=None: MaskedArray(np_empty_like(a.data if isinstance(a, MaskedArray) else a, dtype), None)
-    N.flatnonzero = lambda a: (_ for _ in ()).throw(Inconclusive('flatnonzero (memory-layout dependent flat views) is not modelled'))
+    N.flatnonzero = np_flatnonzero
     M.zeros_like = lambda a: ma_zeros(a.shape, a.kind)
     M.ones_like = lambda a: ma_ones(a.shape, a.kind)
     M.stack, M.vstack, M.concatenate = ma_stack, ma_vstack, ma_concatenate
